@@ -510,10 +510,14 @@ func peerFasthttp(wire []byte, isResp bool) (s seen) {
 		}
 	}()
 	// All() also yields fields fasthttp synthesises (Connection: close for close-delimited or HTTP/1.0
-	// messages, Content-Length: 0, the default Content-Type): a field counts as seen only if a line starting "<name>:" is on the wire.
+	// messages, Content-Length: 0, the default Content-Type): a field counts as seen at most as often as a
+	// line starting "<name>:" is on the wire.
 	lw := bytes.ToLower(wire)
+	reported := map[string]int{}
 	addName := func(k []byte) {
-		if bytes.Contains(lw, append(append([]byte("\r\n"), bytes.ToLower(k)...), ':')) {
+		lk := string(bytes.ToLower(k))
+		reported[lk]++
+		if reported[lk] <= bytes.Count(lw, []byte("\r\n"+lk+":")) {
 			s.names = append(s.names, string(k))
 		}
 	}
